@@ -291,6 +291,7 @@ def run(ctx):
     ctx.rule('R36.2', 'no finding is filtered out between the SAX handler and the index / per-file pages')
     T = Taint(tree)
     r36_4(ctx, T)
+    r36_5(ctx, T)
     flows = T.run()
     handler = [n for n in ast.walk(tree) if isinstance(n, ast.ClassDef) and n.name == 'CppCheckHandler']
     if not handler:
@@ -497,3 +498,46 @@ def r36_4(ctx, T):
                 ctx.ob('R36.4', 'dictcomp:%d' % node.lineno, False, 'the dict comprehension at line %d keeps one finding per %s' % (node.lineno, ast.unparse(node.key)),
                        '%s:%d' % (SCRIPT, node.lineno))
     ctx.ob('R36.4', 'collapse-census', True, '%d grouping constructs over finding records examined' % n, SCRIPT)
+
+
+def r36_5(ctx, T):
+    """R36.5  every finding of a source line is annotated: in AnnotateCodeFormatter.wrap the body executed for a finding whose line matches assigns the output line `t`
+    on every path (must-assign over the Python syntax tree: both arms of every if, the body and every handler of a try)."""
+    ctx.rule('R36.5', 'the per-file page annotates every finding of a line on every path')
+    wrap = None
+    for n in ast.walk(T.tree):
+        if isinstance(n, ast.ClassDef) and n.name == 'AnnotateCodeFormatter':
+            for m in n.body:
+                if isinstance(m, ast.FunctionDef) and m.name == 'wrap':
+                    wrap = m
+    if wrap is None:
+        raise AnalysisBroken('AnnotateCodeFormatter.wrap not found')
+
+    def must_assign(stmts, name):
+        for st in stmts:
+            if isinstance(st, (ast.Assign, ast.AugAssign)):
+                tg = st.targets if isinstance(st, ast.Assign) else [st.target]
+                if any(isinstance(t_, ast.Name) and t_.id == name for t_ in tg):
+                    return True
+            if isinstance(st, ast.If):
+                if st.orelse and must_assign(st.body, name) and must_assign(st.orelse, name):
+                    return True
+            if isinstance(st, ast.Try):
+                if must_assign(st.body, name) and all(must_assign(h.body, name) for h in st.handlers):
+                    return True
+                if st.finalbody and must_assign(st.finalbody, name):
+                    return True
+        return False
+    loops = [n for n in ast.walk(wrap) if isinstance(n, ast.For) and 'errors' in ast.unparse(n.iter)]
+    ctx.floor('R36.5 loops over the findings of a source line in wrap()', len(loops), 1)
+    for lp in loops:
+        # the statement guarded by the line comparison
+        guarded = None
+        for st in lp.body:
+            if isinstance(st, ast.If) and 'line' in ast.unparse(st.test):
+                guarded = st.body
+        body = guarded if guarded is not None else lp.body
+        ok = must_assign(body, 't')
+        ctx.ob('R36.5', 'annotate-all:%d' % loops.index(lp), ok, 'every finding on the line changes the output line (annotation added on all paths)' if ok else
+               'AnnotateCodeFormatter.wrap has a path on which a finding whose line matches adds no annotation (an if without else / a try whose body can fall through): such a '
+               'finding is missing from the per-file page', '%s:%d' % (SCRIPT, lp.lineno))
